@@ -26,7 +26,8 @@ NVars == 3
 Thorough == Tier = "thorough"
 
 (* ------------------------------ term universe --------------------------- *)
-Consts  == {a, b, IntT(1), Flt(1, 0), Flt(3, -1)}       \* a b 1 1.0 1.5
+Consts  == {a, b, IntT(1), Flt(1, 0), Flt(3, -1),       \* a b 1 1.0 1.5
+            Flt(1, -60), Flt(3, -61)}                    \* two different floats that are very close: 2^-60 and 1.5 * 2^-60
 Base    == Consts \cup {X, Y, Z, Anon, EmptyList}
 Small   == {a, X, Y, Anon}
 Small2  == IF Thorough THEN {a, b, X, Y, Anon} ELSE {a, X, Anon}
